@@ -63,8 +63,8 @@ static inline _Bool spec_forbidden_bit(uint32_t side, uint32_t sq, uint32_t k, u
   if (spec_king(sq) & ek) return 1;
   _Bool hit = 0;
   for (uint32_t s = 0; s < 64; s++) {
-    if (((eb | eq) >> s) & 1) hit = hit || ((spec_bishop_walk(s, blockers) >> sq) & 1);
-    if (((er | eq) >> s) & 1) hit = hit || ((spec_rook_walk(s, blockers) >> sq) & 1);
+    if (((eb | eq) >> s) & 1) hit = hit || spec_sees(1, s, sq, blockers);
+    if (((er | eq) >> s) & 1) hit = hit || spec_sees(0, s, sq, blockers);
   }
   return hit;
 }
